@@ -1756,13 +1756,11 @@ impl KotoVm {
             }
             other => {
                 let mut display_context = DisplayContext::with_vm(self).enable_debug();
-                match other.display(&mut display_context) {
-                    Ok(_) => {
-                        self.set_register(result, display_context.result().into());
-                        Ok(())
-                    }
-                    Err(_) => runtime_error!("failed to get display value"),
-                }
+                // Errors come from `@display` functions of contained values, so they're passed on
+                // as they are (a thrown value stays catchable, a timeout stays uncatchable).
+                other.display(&mut display_context)?;
+                self.set_register(result, display_context.result().into());
+                Ok(())
             }
         }
     }
@@ -1777,13 +1775,11 @@ impl KotoVm {
             }
             other => {
                 let mut display_context = DisplayContext::with_vm(self);
-                match other.display(&mut display_context) {
-                    Ok(_) => {
-                        self.set_register(result, display_context.result().into());
-                        Ok(())
-                    }
-                    Err(_) => runtime_error!("failed to get display value"),
-                }
+                // Errors come from `@display` functions of contained values, so they're passed on
+                // as they are (a thrown value stays catchable, a timeout stays uncatchable).
+                other.display(&mut display_context)?;
+                self.set_register(result, display_context.result().into());
+                Ok(())
             }
         }
     }
